@@ -215,6 +215,29 @@ def run(rep: Report, tier: str) -> None:
     # ---- R09.6: Time -> Time_Period maps exactly the intervals that ARE a period, to that period (calendar decision table) ----
     rep.rule("R09.6", "vtl_interval_to_period: interval == [start(P), end(P)] of a regular period P  <=>  result is P; every other interval raises")
     _interval_to_period_table(P, rep)
+    # ---- R09.9 a value that cannot be converted to a Date ends in the documented VTL error, whichever wording DuckDB uses ----
+    rep.rule("R09.9", "cast to Date / Time of an unconvertible value: every DuckDB wording of the failure (bad format, field value out of range) is mapped to RunTimeError 2-1-19-8")
+    from sa.e6 import ExcVal as _EV9, Unmodelled as _Un9
+    fme = P.func("vtlengine.duckdb_transpiler.io._execution._map_query_error")
+    wordings = {
+        "bad-format/timestamp": 'Conversion Error: invalid timestamp field format: "not-a-date", expected format is (YYYY-MM-DD HH:MM:SS[.US][±HH[:MM[:SS]]| ZONE])',
+        "bad-format/date": 'Conversion Error: invalid date field format: "2020-1", expected format is (YYYY-MM-DD)',
+        "out-of-range/timestamp": 'Conversion Error: timestamp field value out of range: "2020-02-30", expected format is (YYYY-MM-DD HH:MM:SS[.US][±HH[:MM[:SS]]| ZONE])',
+        "out-of-range/date": 'Conversion Error: date field value out of range: "2021-02-29", expected format is (YYYY-MM-DD)',
+    }
+    for wl, wtext in wordings.items():
+        try:
+            got9 = Interp(P).call(fme, {"error": wtext, "sql_query": 'SELECT CAST("Me_1" AS TIMESTAMP) FROM "DS_1"'})
+        except Raised as r9:
+            got9 = f"<raises {getattr(r9.exc, 'cls', r9.exc)}>"
+        except _Un9 as e:
+            raise AnalysisError(f"R09.9: _map_query_error outside the evaluator's language: {e}")
+        code9 = got9.code if isinstance(got9, _EV9) else None
+        rep.instance("R09.9", f"date-conversion-error/{wl}", nontrivial=True, sample={"duckdb message": wtext[:70], "mapped to": code9})
+        if code9 != "2-1-19-8":
+            rep.add(Finding("R09.9", f"R09.9/date-conversion-error/{wl}", fme.module.rel, fme.node.lineno, fme.qualname,
+                            f"DuckDB's message `{wtext[:80]}` (cast(<string>, date) of a value that is no date) is mapped to {got9 if code9 is None else code9!r}, not to RunTimeError 2-1-19-8: "
+                            f"the raw ConversionException escapes from run() (None = no mapping, the caller re-raises the DuckDB error)"))
     # ---- R09.8 cast(x, date) keeps what a Date can hold: the cast's SQL type == the type the loaders store a Date with a time part in ----
     rep.rule("R09.8", "the SQL type cast(..., date) converts to is the type the loaders use for Date values that carry a time of day (no silent truncation to the day)")
     om = P.module("vtlengine.duckdb_transpiler.Transpiler.operators")
